@@ -238,7 +238,34 @@ def C20_5(ctx, facts):
     ctx.assume("E-PANIC sni: %s" % st)
 
 
+def C20_6(ctx, facts):
+    """The middleware tells "arrived over TLS" from the per-connection TLS information; `None` there means "not TLS" and the
+    request is forwarded unvalidated.  The shared state behind it must therefore never *look* empty on a TLS connection:
+    `Empty` is what `empty()` constructs and nothing else; `recv` moves Pending -> Received under one write guard that it
+    holds across the wait (a second request polling in between blocks on the lock instead of reading a transient state)."""
+    ST = "info::tls::channel::State"
+    makers = {}
+    for g in facts.fns.values():
+        if g.d.get("derived") or not g.nkey.startswith(("info::tls", "<info::tls")):
+            continue
+        for v in ("Empty", "Pending", "Received"):
+            if g.aggregates(ST, v):
+                makers.setdefault(v, set()).add(g.nkey)
+    ctx.floor("tls-info-state|constructors", len(makers), 3, "State variants constructed somewhere")
+    import panics
+    for v, allowed in (("Empty", "TlsConnectionInfoReciever::empty"), ("Pending", "TlsConnectionInfoReciever::new"), ("Received", "TlsConnectionInfoReciever::recv")):
+        bad = sorted(n for n in makers.get(v, ()) if not any(o.endswith(allowed) for o in panics.owner_chain(facts.by_norm[n][0]) + [n.split("::{closure")[0]]))
+        ctx.check(not bad, "tls-info-state|%s-only-in-%s" % (v, allowed.split("::")[-1]), "State::%s is constructed only in %s" % (v, allowed),
+                  "State::%s is also constructed in %s: a TLS connection can look like a plain one (the SNI check is skipped) while another request is waiting for the handshake" % (v, bad))
+    recv = facts.fn("info::tls::channel::TlsConnectionInfoReciever::recv::{closure#0}")
+    ctx.touched(recv)
+    w = [c for c in recv.calls() if c.matches(r"RwLock.*::write$")]
+    ctx.check(len(w) == 1, "tls-info-state|single-write-guard", "recv takes the write lock once and keeps it until the received information is stored",
+              "recv takes the write lock %d times: the state is visible between the wait and the store" % len(w), recv.where())
+
+
 RULES = [
+    ("C20.6", C20_6, CFG),
     ("C20.1", C20_1_3, CFG),
     ("C20.2", C20_2, CFG),
     ("C20.4", C20_4, CFG),
